@@ -262,6 +262,8 @@ func wellFormed(op []string) bool {
 		return n == 2 && isIdx(a[0], nClients) && isNat(a[1])
 	case "rpu":
 		return n == 1 && isIdx(a[0], nClients)
+	case "rr":
+		return n == 4 && isNat(a[0]) && isIdx(a[1], nBlobbers) && isIdx(a[2], nClients) && isNat(a[3]) && atoi64(a[3]) <= 1<<32
 	case "updb":
 		return n == 3 && isIdx(a[0], nBlobbers) && isOptNat(a[1]) && isOptNat(a[2])
 	case "tick":
@@ -545,6 +547,18 @@ func (x *world) run(op []string) string {
 			return bad
 		}
 		return st(x.exec(x.cli[atoi(op[1])], "read_pool_unlock", 0, map[string]string{}))
+	case "rr": // rr k i j n ; obs: price [reason]   (client j's read marker for n more 64 KiB blocks, redeemed by blobber i)
+		if len(op) != 5 {
+			return bad
+		}
+		r, price := x.readRedeem(before, atoi(op[1]), atoi(op[2]), atoi(op[3]), atoi64(op[4]))
+		if r.status != "ok" {
+			if r.status == "fail" {
+				return fmt.Sprintf("fail %d %s", price, readFailure(r.out))
+			}
+			return fmt.Sprintf("%s %d", st(r), price)
+		}
+		return fmt.Sprintf("ok %d", price)
 	case "updb": // updb i cap wp   (by the delegate wallet = the client given at addb; tried with every client)
 		if len(op) != 4 {
 			return bad
@@ -623,6 +637,63 @@ func (x *world) spOf(s *snap, kind string, i int) (stake, rewards uint64) {
 func (x *world) execH(from *actor, fn string, value uint64, input interface{}) (txres, string) {
 	r := x.exec(from, fn, value, input)
 	return r, x.lastHash
+}
+
+// readFailure: the reason CLASS of a rejected commit_blobber_read.
+func readFailure(out string) string {
+	switch {
+	case strings.Contains(out, "can't get related allocation") && strings.Contains(out, "value not present"):
+		return "absent"
+	case strings.Contains(out, "late reading, allocation expired"):
+		return "expired"
+	case strings.Contains(out, "blobber doesn't belong to allocation"):
+		return "not-blobber"
+	case strings.Contains(out, "not enough tokens in read pool"):
+		return "read-pool"
+	}
+	return "other:" + errClass(out)
+}
+
+// readPrice: what commitBlobberRead charges for n more blocks: Coin(float64(Terms.ReadPrice) * sizeInGB(n * CHUNK_SIZE)),
+// computed here from the allocation's stored terms with the same float64 operations (0 when the blobber does not
+// serve the allocation: the contract then never prices the marker).
+func readPrice(s *snap, k int, blobberID string, n int64) uint64 {
+	if k < 0 || k >= len(s.S.Allocs) || !s.S.Allocs[k].Present {
+		return 0
+	}
+	for _, d := range s.S.Allocs[k].BAs {
+		if d.BlobberID == blobberID {
+			sizeRead := float64(n*64*1024) / (1024 * 1024 * 1024)
+			return uint64(float64(d.ReadPrice) * sizeRead)
+		}
+	}
+	return 0
+}
+
+// readRedeem builds client j's read marker for blobber i of allocation k — counter = the last redeemed counter of
+// that (allocation, blobber, client) plus n, signed with the client's real key — and sends commit_blobber_read
+// (read_redeem) as the blobber.
+func (x *world) readRedeem(before *snap, k, i, j int, n int64) (txres, uint64) {
+	aid := x.allocID(k)
+	owner := x.cli[0].ID
+	if k >= 0 && k < len(before.S.Allocs) && before.S.Allocs[k].Present {
+		owner = before.S.Allocs[k].Owner
+	}
+	key := fmt.Sprintf("%d|%d|%d", k, i, j)
+	ctr := x.readCtr[key] + n
+	c := x.cli[j]
+	rm := map[string]interface{}{
+		"client_id": c.ID, "client_public_key": c.PublicKey, "blobber_id": x.blob[i].ID, "allocation_id": aid,
+		"owner_id": owner, "timestamp": x.now(), "counter": ctr,
+	}
+	hashData := fmt.Sprintf("%v:%v:%v:%v:%v:%v:%v", aid, x.blob[i].ID, c.ID, c.PublicKey, owner, ctr, x.now())
+	rm["signature"] = c.sign(encryption.Hash(hashData))
+	price := readPrice(before, k, x.blob[i].ID, n)
+	r := x.exec(x.blob[i], "read_redeem", 0, map[string]interface{}{"read_marker": rm})
+	if r.status == "ok" {
+		x.readCtr[key] = ctr
+	}
+	return r, price
 }
 
 // commit builds a write marker signed by the allocation owner (real key) and sends commit_connection as the blobber.
